@@ -283,4 +283,214 @@ theorem agree_step (s : State) (op : Op) (h : divClass s op = none) : Mem.step s
     simp only [Mem.step, Os.step]
     cases h1 : okOf (Mem.removeAll s.tree p) <;> cases h2 : okOf (Os.removeAll s.tree p) <;> simp_all
 
+
+/-! ### Histories -/
+
+/-- No class is met along the `memFS` run of `ops` from `s`. -/
+def cleanRun : State → List Op → Bool
+  | _, [] => true
+  | s, op :: ops => (divClass s op).isNone && cleanRun (Mem.step s op).1 ops
+
+/-- Only the two exceptions the contract/POSIX leave open are avoided (the divergence classes are not). -/
+def exceptionFree : State → List Op → Bool
+  | _, [] => true
+  | s, op :: ops =>
+    (divClass s op != some .allowedRenameOverExisting && divClass s op != some .unspecifiedSeekDir) &&
+    exceptionFree (Mem.step s op).1 ops
+
+/-- `holds_partial`: for every history that stays outside the classes, both filesystems give the
+same results and end in the same state (names, kinds, contents, handles). -/
+theorem agree_run (s : State) (ops : List Op) (h : cleanRun s ops = true) :
+    runWith Mem.step s ops = runWith Os.step s ops := by
+  induction ops generalizing s with
+  | nil => rfl
+  | cons op ops ih =>
+    simp only [cleanRun, Bool.and_eq_true, Option.isNone_iff_eq_none] at h
+    have h1 := agree_step s op h.1
+    simp only [runWith]
+    rw [← h1, ih _ h.2]
+
+/-- C44 at full strength: apart from the exceptions, every history agrees. -/
+def FullStatement : Prop :=
+  ∀ ops : List Op, exceptionFree {} ops = true → runWith Mem.step {} ops = runWith Os.step {} ops
+
+theorem holds_partial (ops : List Op) (h : cleanRun {} ops = true) :
+    runWith Mem.step {} ops = runWith Os.step {} ops := agree_run {} ops h
+
+/-! ### Negation witnesses, one per divergence class -/
+
+def nA : Path := [[97]]
+def nB : Path := [[98]]
+def fl (acc : Nat) (append create excl sync trunc : Bool) : Mem.Flags := ⟨acc, append, create, excl, sync, trunc⟩
+def rw_ : Mem.Flags := fl 2 false false false false false
+def rwCreate : Mem.Flags := fl 2 false true false false false
+def ro : Mem.Flags := fl 0 false false false false false
+
+/-- State reached by `memFS` after `ops`. -/
+def after (ops : List Op) : State := (runWith Mem.step {} ops).1
+
+/-- The step `op` after history `ops` is in class `c` and the two filesystems differ on it. -/
+abbrev Diverges (ops : List Op) (op : Op) (c : Class) : Prop :=
+  cleanRun {} ops = true ∧ divClass (after ops) op = some c ∧ Mem.step (after ops) op ≠ Os.step (after ops) op
+
+theorem diverge_appendSync : Diverges [] (.open nA (fl 2 true true false false false)) .appendSync := by
+  decide
+theorem diverge_sync : Diverges [] (.open nA (fl 1 false true false true false)) .appendSync := by
+  decide
+theorem diverge_dirWrite : Diverges [.mkdir nA] (.open nA rw_) .dirWrite := by decide
+theorem diverge_dirCreateTrunc : Diverges [.mkdir nA] (.open nA (fl 0 false true false false false)) .dirCreateTrunc := by
+  decide
+theorem diverge_rdonlyTrunc :
+    Diverges [.open nA rwCreate, .write 0 [1, 2]] (.open nA (fl 0 false false false false true)) .rdonlyTrunc := by
+  decide
+/-- The data-losing one: `memFile.Write` through an `O_RDONLY` handle succeeds and changes the file. -/
+theorem diverge_writeRdonly :
+    Diverges [.open nA rwCreate, .write 0 [1, 2], .open nA ro] (.write 1 [9]) .writeRdonly := by decide
+theorem writeRdonly_modifies :
+    (Mem.step (after [.open nA rwCreate, .write 0 [1, 2], .open nA ro]) (.write 1 [9])).1.tree = [(nA, .file [9, 2])] := by
+  decide
+theorem diverge_writeEmpty :
+    Diverges [.open nA rwCreate, .seek 0 5 0] (.write 0 []) .writeEmpty := by decide
+theorem diverge_readWronly :
+    Diverges [.open nA rwCreate, .write 0 [1], .open nA (fl 1 false false false false false)] (.read 1 1) .readWronly := by
+  decide
+theorem diverge_readZero : Diverges [.open nA rwCreate] (.read 0 0) .readZero := by decide
+theorem diverge_readdirAfterPartial :
+    Diverges [.mkdir nA, .mkdir nB, .open [] ro, .readdir 0 1] (.readdir 0 0) .readdirAfterPartial := by
+  decide
+theorem diverge_renameSameMissing : Diverges [] (.rename nA nA) .renameSameMissing := by decide
+theorem diverge_renameRootSelf : Diverges [] (.rename [] []) .renameRootSelf := by decide
+theorem diverge_removeMissingParent : Diverges [] (.removeAll [[97], [98]]) .removeMissingParent := by decide
+
+/-- The contract's exception is a real difference too (file over directory), but an allowed one. -/
+theorem allowed_exception_differs :
+    divClass (after [.mkdir nA, .open nB rwCreate]) (.rename nB nA) = some .allowedRenameOverExisting ∧
+    Mem.step (after [.mkdir nA, .open nB rwCreate]) (.rename nB nA) ≠
+      Os.step (after [.mkdir nA, .open nB rwCreate]) (.rename nB nA) := by decide
+
+theorem full_false : ¬ FullStatement := by
+  intro h
+  have := h [.rename nA nA] (by decide)
+  revert this
+  decide
+
+/-! ### Root and own-subtree clause -/
+
+theorem walkFrom_dir (t : Tree) : ∀ (rest done : Path), Mem.walkFrom t done rest = .ok () →
+    ∀ k, 0 < k → k < rest.length → get t (done ++ rest.take k) = some .dir
+  | [], _, _, k, _, hk => by simp at hk
+  | [_], _, _, k, h0, hk => by simp at hk; omega
+  | c :: c' :: cs, done, h, k, h0, hk => by
+    unfold Mem.walkFrom at h
+    split at h
+    · cases h
+    · cases h
+    · rename_i hg
+      match k, h0 with
+      | 1, _ => simpa using hg
+      | k' + 2, _ =>
+        have := walkFrom_dir t (c' :: cs) (done ++ [c]) h (k' + 1) (by omega)
+          (by simp only [List.length_cons] at hk ⊢; omega)
+        simpa [List.append_assoc] using this
+
+/-- Along a successful `walk`, every proper non-root prefix is an existing directory. -/
+theorem walk_prefix_dir {t : Tree} {a b : Path} (hw : Mem.walk t b = .ok ()) (hu : under a b = true)
+    (hne : a ≠ b) (ha : a ≠ []) : get t a = some .dir := by
+  rw [under_iff] at hu
+  obtain ⟨r, rfl⟩ := hu
+  have hr : r ≠ [] := by intro h; subst h; simp at hne
+  have := walkFrom_dir t (a ++ r) [] hw a.length
+    (by cases a with | nil => exact absurd rfl ha | cons _ _ => simp)
+    (by cases r with | nil => exact absurd rfl hr | cons _ _ => simp)
+  simpa using this
+
+/-- `memFS.Rename` of a name into its own subtree fails, whatever the tree. -/
+theorem mem_rename_into_own_subtree_fails (t : Tree) (a b : Path) (hne : a ≠ b) (hu : under a b = true) :
+    okOf (Mem.rename t a b) = none := by
+  unfold Mem.rename; simp [hne, hu, okOf]
+
+/-- The same through `Dir`. -/
+theorem os_rename_into_own_subtree_fails (t : Tree) (a b : Path) (hne : a ≠ b) (hu : under a b = true) :
+    okOf (Os.rename t a b) = none := by
+  unfold Os.rename
+  by_cases hr : a = [] ∨ b = []
+  · simp [hr, okOf]
+  · simp only [hr, if_false]
+    have ha : a ≠ [] := fun h => hr (Or.inl h)
+    cases hwa : Mem.walk t a with
+    | error e => rfl
+    | ok u =>
+      simp only
+      cases hga : get t a with
+      | none => rfl
+      | some ea =>
+        simp only
+        cases hwb : Mem.walk t b with
+        | error e => rfl
+        | ok u' =>
+          have hdir := walk_prefix_dir (t := t) (by cases u'; exact hwb) hu hne ha
+          rw [hga] at hdir
+          cases hdir
+          simp only
+          cases hgb : get t b with
+          | none => simp [hu, okOf]
+          | some eb => cases eb <;> simp [okOf]
+
+theorem step_rename_into_own_subtree_fails (s : State) (a b : Path) (hne : a ≠ b) (hu : under a b = true) :
+    Mem.step s (.rename a b) = (s, .err) ∧ Os.step s (.rename a b) = (s, .err) := by
+  simp [Mem.step, Os.step, hne, mem_rename_into_own_subtree_fails _ a b hne hu,
+    os_rename_into_own_subtree_fails _ a b hne hu]
+
+/-- Removing the root fails on both. -/
+theorem removeAll_root_fails (s : State) :
+    Mem.step s (.removeAll []) = (s, .err) ∧ Os.step s (.removeAll []) = (s, .err) := by
+  simp [Mem.step, Os.step, Mem.removeAll, Os.removeAll, Mem.walk, Mem.walkFrom, okOf]
+
+/-- "Renaming the root always fails", as a statement about `memFS`. -/
+def RenameRootStatement : Prop :=
+  ∀ (s : State) (a b : Path), a = [] ∨ b = [] → Mem.step s (.rename a b) = (s, .err)
+
+/-- False as it stands: `Rename("/", "/")` returns nil. -/
+theorem rename_root_full_false : ¬ RenameRootStatement := by
+  intro h
+  have := h {} [] [] (Or.inl rfl)
+  revert this
+  decide
+
+/-- It holds whenever the two names differ (and always through `Dir`). -/
+theorem rename_root_fails_partial (s : State) (a b : Path) (hr : a = [] ∨ b = []) (hne : a ≠ b) :
+    Mem.step s (.rename a b) = (s, .err) := by
+  have : okOf (Mem.rename s.tree a b) = none := by
+    unfold Mem.rename
+    simp only [hne, if_false]
+    rcases hr with ha | hb
+    · subst ha; simp [under_nil, okOf]
+    · subst hb
+      have hu : under a [] = false := by
+        cases a with
+        | nil => exact absurd rfl hne
+        | cons x xs => simp [under]
+      simp only [hu, Bool.false_eq_true, if_false]
+      cases hwa : Mem.walk s.tree a with
+      | error e => rfl
+      | ok u =>
+        by_cases ha : a = []
+        · exact absurd ha hne
+        · simp [ha, Mem.walk, Mem.walkFrom, okOf]
+  simp [Mem.step, hne, this]
+
+theorem os_rename_root_fails (s : State) (a b : Path) (hr : a = [] ∨ b = []) :
+    Os.step s (.rename a b) = (s, .err) := by
+  simp [Os.step, Os.rename, hr, okOf]
+
+/-! ### Non-vacuity: a clean history with real work in it -/
+
+example : cleanRun {} [.mkdir nA, .open (nA ++ nB) rwCreate, .write 0 [1, 2, 3], .seek 0 1 0, .read 0 5,
+    .rename nA nB, .write 0 [7], .stat (nB ++ nB), .open nB ro, .readdir 1 0, .removeAll nB, .fstat 0] = true := by
+  decide
+
+example : (runWith Mem.step {} [.mkdir nA, .open (nA ++ nB) rwCreate, .write 0 [1, 2, 3], .seek 0 1 0,
+    .read 0 5, .rename nA nB, .write 0 [7], .stat (nB ++ nB)]).2 =
+    [.ok, .opened 0 false, .wrote 3, .pos 1, .data [2, 3], .ok, .wrote 1, .info false 4] := by decide
+
 end NetVerif.Proofs.C44
